@@ -24,9 +24,11 @@ Definition decode_char (c : list N) : N :=
 Definition classify_tok (vo : bool) (t : list N) : list arg * bool :=
   if vo then ([Value t], true)
   else match t with
-  | [45; 45] => ([DoubleDash], true)
-  | 45 :: 45 :: n => ([LongOption n], false)
-  | 45 :: b :: r => (map (fun c => ShortOption (decode_char c)) (chars_of (b :: r)), false)
+  | b0 :: b1 :: r =>
+    if b0 =? 45 then
+      if b1 =? 45 then match r with [] => ([DoubleDash], true) | _ => ([LongOption r], false) end
+      else (map (fun c => ShortOption (decode_char c)) (chars_of (b1 :: r)), false)
+    else ([Value t], false)
   | _ => ([Value t], false)
   end.
 Fixpoint classify_all (vo : bool) (ts : list (list N)) : list arg :=
